@@ -225,22 +225,41 @@ def check_absorb(ck, mod, ks, label, rulemap):
     D = gf2.wzext(gf2.sym_word(("argw", di), 8), 32)
     S = [gf2.sym_word(("S", i), 32) for i in range(4)]
     st = ("arg", 0)
-    if len(f.loops) != 1:
-        raise Broken("%s: expected one loop" % f.name)
-    hdr = f.loops[0]["header"]
+    hdr = main_loop(f, ps)
     ptrs, ints = hd_syms(f, hdr)
-    if len(ptrs) != 1 or len(ints) != 1:
-        raise Broken("%s: expected one cursor and one remaining-length phi at the loop head" % f.name)
-    cur, rem = ("hdp", ptrs[0].id), ("hd", ints[0].id)
+    idx_style = not ptrs and len(ints) == 1
+    if not idx_style and (len(ptrs) != 1 or len(ints) != 1):
+        raise Broken("%s: expected one cursor and one remaining-length phi (or one index) at the loop head" % f.name)
+    DATA = ("arg", f.param_index("data"))
+    SIZE = Lf.s(("n", f.param_index("size")))
+    cur, rem = (("hdp", ptrs[0].id) if ptrs else None), ("hd", ints[0].id)
     n = 0
     seen = set()
     expanded = []
     for p in ps:
-        if p.end[0] == "ret" and p.blocks and p.blocks[0] == hdr and p.eqs.get(rem) is None:
+        if idx_style and p.end[0] == "ret" and p.blocks and p.blocks[0] == hdr:
+            dv = [d_ for d_ in p.divs.values() if d_[3] == 4 and d_[2] == SIZE]
+            if len(dv) != 1:
+                raise Broken("%s: index-based loop without a division of the size by 4: unrecognised shape" % f.name)
+            expanded += [(p, r_) for r_ in residue_cases(ex, p, dv[0][1], f.name)]
+        elif p.end[0] == "ret" and p.blocks and p.blocks[0] == hdr and p.eqs.get(rem) is None:
             expanded += [(p, r_) for r_ in residue_cases(ex, p, rem, f.name)]
         else:
             expanded.append((p, None))
     for p, rforced in expanded:
+        if idx_style and p.end[0] == "loop-entry":
+            ini_n = p.env.get(("init", ints[0].id))
+            if is_word(ini_n) or ini_n.const() is None:
+                raise Broken("%s: the loop carries one integer that does not start at a constant (%s): unrecognised shape" % (f.name, ini_n))
+            c.ob(ini_n.const() == 0 and not calls_of(p), "ADVANCE", "absorb-init", "the index starts at 0; nothing happens before the loop", "loop starts with index %s / events %s" % (ini_n, calls_of(p)))
+            n += 1
+            continue
+        if idx_style and p.end[0] in ("backedge", "ret"):
+            ins_s = {e_[2] for e_ in p.events if e_[0] == "in-sym" and e_[1] == DATA}
+            dv = [d_ for d_ in p.divs.values() if d_[3] == 4 and d_[2] == SIZE]
+            if len(ins_s) > 1 or len(dv) > 1:
+                raise Broken("%s: a path reads the data at several unrelated symbolic offsets: unrecognised shape" % f.name)
+            cur = ("idx", DATA, next(iter(ins_s)) if ins_s else None)
         if p.end[0] == "loop-entry":
             ini_p, ini_n = p.env.get(("init", ptrs[0].id)), p.env.get(("init", ints[0].id))
             okp = (not is_word(ini_p)) and ini_p == Lf.s(("arg", f.param_index("data"))) and ini_n == Lf.s(("n", f.param_index("size")))
@@ -251,7 +270,26 @@ def check_absorb(ck, mod, ks, label, rulemap):
             n += 1
             continue
         P = [e for e in p.events if e[0] == "P"]
-        if p.end[0] == "backedge":
+        if idx_style and p.end[0] == "backedge":
+            r, name = 4, "block"
+            bn = p.env.get(("back", ints[0].id))
+            step = bn.add(Lf.s(rem), -1).const() if bn is not None and not is_word(bn) else None
+            if step not in (1, 4) or len(dv) != 1:
+                raise Broken("%s: index-based loop whose index does not advance by one word per iteration (step %s): unrecognised shape" % (f.name, step))
+            okg = any(cc[0] == "ult" and cc[2] and cc[1] == (Lf({rem: 1, dv[0][0]: -4}) if step == 4 else Lf({rem: 1, dv[0][0]: -1})) for cc in p.conds)
+            c.ob(okg, "ADVANCE", "absorb-guard", "a full word is absorbed only while the index is below the number of full words", "loop guard is not 'index < full words': %s" % [(x[0], repr(x[1]), x[2]) for x in p.conds][:3])
+            c.ob(cur[2] == repr(Lf({rem: 4 // step})), "ADVANCE", "absorb-advance", "the data is read at the loop index, which advances by one word per iteration",
+                 "an iteration reads at offset %s with the index at %s" % (cur[2], repr(Lf({rem: 4 // step}))))
+            n += 2
+        elif idx_style and p.end[0] == "ret":
+            r = rforced
+            if r is None:
+                raise Broken("%s: a path returns without a determined number of left-over bytes: unrecognised shape" % f.name)
+            name = "tail%d" % r
+            if r:
+                c.ob(cur[2] == repr(Lf({dv[0][0]: 4})), "ADVANCE", "absorb-%s-position" % name, "the left-over bytes are read right after the full words", "the left-over bytes are read at offset %s" % cur[2])
+                n += 1
+        elif p.end[0] == "backedge":
             r, name = 4, "block"
             okg = any(cc[0] == "uge" and cc[2] and cc[1] == Lf({rem: 1, 1: -4}) for cc in p.conds)
             c.ob(okg, "ADVANCE", "absorb-guard", "a full word is absorbed only when at least 4 bytes remain", "loop guard is not 'remaining >= 4': %s" % [(x[0], repr(x[1]), x[2]) for x in p.conds])
